@@ -285,7 +285,9 @@ class RenderTag(Tag):
         if is_token_type(name_token, TokenType.SINGLE_QUOTE_STRING) or is_token_type(
             name_token, TokenType.DOUBLE_QUOTE_STRING
         ):
-            name = StringLiteral(token=name_token, value=name_token.value)
+            # The same as any other string literal, escape sequences included.
+            name = parse_primitive(self.env, name_token)
+            assert isinstance(name, StringLiteral)
         else:
             raise LiquidSyntaxError(
                 "expected the name of a template to render as a string literal, "
